@@ -391,6 +391,13 @@ def pysrc(v) -> str:
         return repr(v)
     if t is bytearray:
         return f"bytearray({bytes(v)!r})"
+    if getattr(t, "_verif_sub", False):
+        base = t.__mro__[1]
+        cons = f"type({t.__name__!r}, ({base.__name__},), {{}})"
+        if is_namedtuple(base):
+            return f"{cons}(" + ", ".join(pysrc(x) for x in v) + ")"
+        names = [f.name for f in dataclasses.fields(v)] if dataclasses.is_dataclass(v) else list(vars(v))
+        return f"{cons}(" + ", ".join(f"{n}={pysrc(getattr(v, n))}" for n in names if hasattr(v, n)) + ")"
     if is_namedtuple(t):
         return f"{t.__name__}(" + ", ".join(pysrc(x) for x in v) + ")"
     if dataclasses.is_dataclass(v):
